@@ -837,7 +837,7 @@ def sec_masked_difference(rec, shape=(1, 2, 2), patches=None):
     for with_mask in (True, False):
         def run():
             m = CC.ZNCCAlignment(t, mk if with_mask else None)
-            m._get_missing_wedge_mask = lambda q, backend: W
+            m._get_missing_wedge_mask = stubs.like(m._get_missing_wedge_mask, lambda q, backend=None, *a, **k: W)
             return m.masked_difference(a, quat, backend=xp)
 
         for pi, pth in enumerate(explore(run, max_paths=10)):
